@@ -5,6 +5,8 @@ import (
 	"encoding/json"
 	"errors"
 	"fmt"
+	"github.com/cosi-project/runtime/pkg/safe"
+	"github.com/siderolabs/gen/xerrors"
 	"os"
 	"sort"
 	"strings"
@@ -148,7 +150,7 @@ func (c *recCore) Destroy(ctx context.Context, p resource.Pointer, opts ...state
 // ---- scenario ------------------------------------------------------------------------------------------------
 
 type gEnv struct {
-	Op  string `json:"op"` // create | touch | teardown | destroy | addfin | remfin | outaddfin | outremfin | sleep | quiesce | faults
+	Op  string `json:"op"` // create | touch | teardown | destroy | addfin | remfin | outaddfin | outremfin | sleep | quiesce | faults | foreignout | foreigngone
 	ID  string `json:"id,omitempty"`
 	Fin string `json:"fin,omitempty"`
 	D   int64  `json:"d,omitempty"`
@@ -249,6 +251,43 @@ func runGenericScenario(t *testing.T, sc gScenario) (out gOutcome) {
 					return nil
 				},
 			}, topts...))
+		case "transform-extra":
+			// the transform also maintains a second, shared output O2/q<id> through its writer; a conflict on THAT type is
+			// an error of the transform (retried by restarting the controller), not a phase conflict of the primary output
+			err = rt.RegisterController(transform.NewController(transform.Settings[*InRes, *OutRes]{
+				Name:            tcName,
+				MapMetadataFunc: mapFn,
+				TransformExtraOutputFunc: func(ctx context.Context, rw controller.ReaderWriter, l *zap.Logger, in *InRes, o *OutRes) error {
+					if err := safe.WriterModify(ctx, rw, newOut2("q"+in.Metadata().ID(), ""), func(x *Out2Res) error {
+						x.SetPayload("x:" + in.Payload())
+
+						return nil
+					}); err != nil {
+						return err
+					}
+
+					return transformFn(ctx, rw, l, in, o)
+				},
+				FinalizerRemovalExtraOutputFunc: func(ctx context.Context, rw controller.ReaderWriter, _ *zap.Logger, in *InRes) error {
+					// the extra output goes with the input
+					ptr := resource.NewMetadata("n1", "O2", "q"+in.Metadata().ID(), resource.VersionUndefined)
+
+					ready, err := rw.Teardown(ctx, ptr)
+					if err != nil {
+						if state.IsNotFoundError(err) {
+							return nil
+						}
+
+						return err
+					}
+
+					if !ready {
+						return xerrors.NewTaggedf[transform.SkipReconcileTag]("extra output still has finalizers")
+					}
+
+					return rw.Destroy(ctx, ptr)
+				},
+			}, transform.WithInputFinalizers(), transform.WithExtraOutputs(controller.Output{Type: "O2", Kind: controller.OutputShared})))
 		case "qtransform", "qtransform-until", "qtransform-while":
 			var qopts []qtransform.ControllerOption
 
@@ -370,6 +409,12 @@ func runGenericScenario(t *testing.T, sc gScenario) (out gOutcome) {
 				if rs.Create(ectx, newIn(e.ID, fmt.Sprintf("p%d", nextPayload))) == nil && get("O", e.ID) != nil {
 					out.fl["recreate_while_output_exists"] = true
 				}
+			case "foreignout":
+				// somebody else's leftover where the transform wants to write its extra output
+				rs.Create(ectx, newOut2("q"+e.ID, "foreign"), state.WithCreateOwner("foreign")) //nolint:errcheck
+				out.fl["foreign_extra_output"] = true
+			case "foreigngone":
+				rs.Destroy(ectx, resource.NewMetadata("n1", "O2", "q"+e.ID, resource.VersionUndefined), state.WithDestroyOwner("foreign")) //nolint:errcheck
 			case "depdestroy":
 				typ := "O"
 				if strings.HasPrefix(e.ID, "q") {
@@ -598,7 +643,10 @@ func checkOrdering(log []wEntry, sc gScenario, name string) (problems []string) 
 					continue
 				}
 
-				in, ok := ins[id]
+				// the extra output of input x is O2/qx
+				inID := strings.TrimPrefix(id, "O2/q")
+
+				in, ok := ins[inID]
 				if !ok {
 					problems = append(problems, fmt.Sprintf("input-gone-before-output: after write #%d (%s %s/%s by %s) output %s exists but its input does not", i, e.Op, e.Typ, e.ID, e.Actor, id))
 
@@ -767,6 +815,16 @@ func runGenericProperty(t *testing.T, prop string, rule string, extra func(rep *
 			{Op: "quiesce"}, {Op: "remfin", ID: "a", Fin: extFin}, {Op: "quiesce"},
 		}})
 
+		// corpus: a transform with an extra output meets a foreign leftover of that type; once it is gone the controller
+		// must catch up by itself (the error restarts it; nothing it watches changes)
+		for _, extra := range [][]gEnv{
+			{{Op: "foreignout", ID: "a"}, {Op: "create", ID: "a"}, {Op: "sleep", D: int64(10 * time.Minute)}, {Op: "foreigngone", ID: "a"}, {Op: "quiesce"}},
+			{{Op: "create", ID: "a"}, {Op: "create", ID: "b"}, {Op: "foreignout", ID: "c"}, {Op: "quiesce"}, {Op: "create", ID: "c"}, {Op: "touch", ID: "a"},
+				{Op: "sleep", D: int64(7 * time.Minute)}, {Op: "foreigngone", ID: "c"}, {Op: "quiesce"}},
+		} {
+			scs = append(scs, gScenario{Config: "transform-extra", Steps: extra})
+		}
+
 		for range tier(400, 10000) {
 			scs = append(scs, genGenericScenario(r))
 		}
@@ -812,9 +870,9 @@ func TestC06(t *testing.T) {
 		"foreign finalizers on inputs and outputs, transform durations 0..200ms, transient transform failures, concurrency 1-2; at every quiescence the oracle requires owned outputs == images of mapped inputs with the latest transformed content, no orphaned/stale output except ones held by foreign finalizers, no leftover finalizer on torn-down inputs whose output is gone; "+
 		"non-trivial = at least two of teardown/destroy/re-create/foreign finalizers/faults occurred; "+
 		"plus gated schedules of qtransform.QController.Reconcile on the real qruntime adapter (every runtime call held at a gate, environment operations within the property's assumptions in every gap, transform faults) ending with an undisturbed reconcile: replayed on GenCtl.q_step and the final state checked against GenCtlConv.converged; the same for transform.Controller.Run with two undisturbed cycles at the end (Transform.t_step)", func(rep *Report, dir string) {
-			gatedQPhase(t, "C06")(rep, dir)
-			gatedTransformPhase(t, "C06")(rep, dir)
-		})
+		gatedQPhase(t, "C06")(rep, dir)
+		gatedTransformPhase(t, "C06")(rep, dir)
+	})
 }
 
 func TestC07(t *testing.T) {
@@ -822,10 +880,10 @@ func TestC07(t *testing.T) {
 		"the controller removes its finalizer only when the output is gone, destroys outputs only when marked tearing down with no finalizers, and a cleanup controller releases its finalizer only when no dependent output exists; "+
 		"plus gated schedules: qtransform.QController.Reconcile is called directly on the real qruntime adapter with every runtime call held at a gate, arbitrary store operations of other parties (incl. ones the assumptions exclude) placed between any two calls, transform faults injected; "+
 		"the schedule, the kind of every runtime call, the reconcile result and the final store are replayed on GenCtl.q_step; the same for cleanup.Controller.Run with HasNoOutputs handlers (single and combined) against Cleanup.c_step, and for transform.Controller.Run with input finalizers against Transform.t_step", func(rep *Report, dir string) {
-			gatedQPhase(t, "C07")(rep, dir)
-			gatedCleanupPhase(t)(rep, dir)
-			gatedTransformPhase(t, "C07")(rep, dir)
-		})
+		gatedQPhase(t, "C07")(rep, dir)
+		gatedCleanupPhase(t)(rep, dir)
+		gatedTransformPhase(t, "C07")(rep, dir)
+	})
 }
 
 func gatedQPhase(t *testing.T, prop string) func(rep *Report, dir string) {
